@@ -116,7 +116,7 @@ class RecEngine:
         RecEngine.last = kw
 
 
-def builder_scenario(chk, multi, fn_order=("b", "a")):
+def builder_scenario(chk, multi, fn_order=("b", "a"), rebuild=False):
     """EngineBuilder(seed).set_initial_values(..., multiple_chains=multi) with jitter functions, build() with Engine re-bound to a recorder"""
     import liesel.goose as gs
     import liesel.goose.builder as bld
@@ -138,18 +138,22 @@ def builder_scenario(chk, multi, fn_order=("b", "a")):
             fns = {"b": lambda key, v: v + 0.5 * jax.random.uniform(key, v.shape), "a": lambda key, v: v + 2.0 * jax.random.uniform(key, ()) * jnp.ones_like(v)}
             b.set_jitter_fns({k: fns[k] for k in fn_order})
             b.build()
+            kw = kw2 = RecEngine.last
+            if rebuild:
+                b.build()                       # a second engine from the same, unchanged builder
+                kw2 = RecEngine.last
         finally:
             bld.Engine = real_engine
-        kw = RecEngine.last
-        return dict(states=kw["model_states"], seeds=kw["seeds"])
+        return dict(states=kw["model_states"], seeds=kw["seeds"], **(dict(states2=kw2["model_states"], seeds2=kw2["seeds"]) if rebuild else {}))
     key = jax.random.PRNGKey(3)
     if multi:
         ex = (key, jnp.array([[0.1, 0.2], [0.3, 0.4]]), jnp.array([0.5, 0.6]))
     else:
         ex = (key, jnp.array([0.1, 0.2]), jnp.array(0.5))
-    tag = "multi" if multi else "single"
+    tag = ("multi" if multi else "single") + ("2" if rebuild else "")
     sa, sb = symlike(ex[1], f"iv{tag}_a"), symlike(ex[2], f"iv{tag}_b")
-    enc = chk.note_enc(Enc(f"EngineBuilder.build with jitter ({'per-chain states' if multi else 'one state replicated'})", f, ex, (root_key("seed"), sa, sb), key_roots={"seed": key}))
+    enc = chk.note_enc(Enc(f"EngineBuilder.build with jitter ({'per-chain states' if multi else 'one state replicated'}{', built twice' if rebuild else ''})", f, ex, (root_key("seed"), sa, sb), key_roots={"seed": key},
+                           **(dict(memo={}) if rebuild else {})))      # built twice: the same sampler with the same key term is the same draw (deterministic PRNG)
     return enc, sa, sb, C
 
 
@@ -185,6 +189,14 @@ def builder_obligations(chk, multi):
         return [], z3.And(*goals)
     obs.append(Obligation(f"[{tag}] the state handed to the engine (= first recorded sample) of every chain is its supplied initial value after the configured jitter function of that key, drawn with a key of its own",
                           [enc], g, signature=f"jitter:{'multi' if multi else 'single'}"))
+
+    def g2(V):
+        o = V.out
+        same_seeds = all(repr(a) == repr(b) for a, b in zip(np.asarray(o["seeds"], dtype=object).reshape(-1), np.asarray(o["seeds2"], dtype=object).reshape(-1)))
+        return [], z3.And(z3.BoolVal(bool(same_seeds)), *[all_eq(o["states"][k], o["states2"][k]) for k in ("a", "b")])
+    enc2 = builder_scenario(chk, multi, rebuild=True)[0]
+    obs.append(Obligation(f"[{tag}] a second build() of the same builder hands its engine the same seeds and the same (once-jittered) initial states: identical configuration => identical run",
+                          [enc2], g2, signature=f"rebuild:{'multi' if multi else 'single'}"))
     # key terms: all jitter draws and all engine seeds pairwise distinct, all derived from the seed
     bad, n = colliding_draw_keys(enc.I, kinds=("uniform",))
     seeds = enc.out["seeds"]
